@@ -15,8 +15,9 @@ LEVEL = "exploration"
 WATCHDOG_S = 30.0
 ASSUMPTIONS = [
     "sync scheduler; reference = the NumPy routine of the same name with the same arguments (minus chunks)",
-    "values exact for integer/bool results; for floating arange/linspace a tolerance of 8 ulps of the result dtype scaled to the value "
-    "range (dask documents that a non-integer step is evaluated per block); length, dtype, lazy shape/chunks, block shapes always exact",
+    "values exact for integer/bool results; for floating arange/linspace a tolerance of 8 ulps (arange: 4*length ulps, NumPy's own "
+    "fill loop accumulates one rounding per element) of the result dtype scaled to the value range (dask documents that a non-integer "
+    "step is evaluated per block); length, dtype, lazy shape/chunks, block shapes always exact",
     "excluded a priori: arange with an integer dtype and a fractional start/step (NumPy's own result is an artefact of its fill loop, "
     "its documentation warns about this call); empty()/empty_like() values (uninitialised by definition: shape/dtype/chunks only)",
     "a case on which NumPy raises is 'inapplicable'; NotImplementedError and the documented 'chunks must be an int or string' "
@@ -266,8 +267,11 @@ def setup_case(case, ctx):
         o["f_np"] = lambda: [np.arange(*args, step=step, **kw)]
         o["f_da"] = lambda: [da.arange(*args, step=step, chunks=spec(ch), **kw)]
         # a non-integer step is evaluated block by block (documented): a few ulps of the RESULT dtype, scaled to the value range
+        # (NumPy itself accumulates one rounding of (start+step)-start per element in the result dtype, so the bound scales with the length)
         eps = float(np.finfo("f4" if dt == "f4" else "f8").eps)
-        o["rtol"], o["atol"] = 8 * eps, 8 * eps * max(abs(0 if start is None else start), abs(stop), 1.0)
+        s0 = 0 if start is None else start
+        num = max(int(np.ceil((stop - s0) / step)), 2)
+        o["rtol"], o["atol"] = 8 * eps, 4 * num * eps * max(abs(s0), abs(stop), 1.0)
     elif kind == "linspace":
         _, start, stop, num, endpoint, retstep, dt, ch = case
         kw = {} if dt is None else {"dtype": dt}
